@@ -215,8 +215,8 @@ def _funcs(cls):
 
 
 def read_client(src, class_suffix, own_snake):
-    """[(method, lookup|None, route)] for the mixin-named methods of the client class (declaration order);
-    methods that are the API's own rpcs are skipped."""
+    """[(method, lookup|None, route, type a dict request is coerced to)] for the mixin-named methods of the client class
+    (declaration order); methods that are the API's own rpcs are skipped."""
     cls = [c for c in _classes(src) if c.name.endswith(class_suffix) and not c.name.endswith("Meta")]
     if len(cls) != 1:
         raise ValueError(f"expected one *{class_suffix} class, found {[c.name for c in cls]}")
@@ -249,7 +249,19 @@ def read_client(src, class_suffix, own_snake):
             raise ValueError(f"{fn.name}: lookups {lookup} wraps {wraps} routes {routes}")
         if wraps and wraps[0] != fn.name:
             raise ValueError(f"{fn.name}: wraps transport.{wraps[0]}")
-        out.append((fn.name, lookup[0] if lookup else None, routes[0]))
+        co = []
+        for n in ast.walk(fn):
+            if isinstance(n, ast.If) and ast.unparse(n.test) == "isinstance(request, dict)":
+                if len(n.body) != 1 or not isinstance(n.body[0], ast.Assign) or ast.unparse(n.body[0].targets[0]) != "request":
+                    raise ValueError(f"{fn.name}: unexpected dict branch {ast.unparse(n)[:80]}")
+                call = n.body[0].value
+                if not (isinstance(call, ast.Call) and not call.args and len(call.keywords) == 1 and call.keywords[0].arg is None
+                        and ast.unparse(call.keywords[0].value) == "request"):
+                    raise ValueError(f"{fn.name}: the dict branch is not <Type>(**request): {ast.unparse(call)[:80]}")
+                co.append(resolve_type(ast.unparse(call.func)))
+        if len(co) != 1:
+            raise ValueError(f"{fn.name}: {len(co)} isinstance(request, dict) branches")
+        out.append((fn.name, lookup[0] if lookup else None, routes[0], co[0]))
     names = [x[0] for x in out]
     if len(set(names)) != len(names):
         raise ValueError(f"duplicate method definitions {names}")
